@@ -242,7 +242,7 @@ class QubitCircuit:
             (i.e. all classical controls are 1).
         """
         if not isinstance(gate, Gate):
-            if gate in GATE_CLASS_MAP:
+            if gate in GATE_CLASS_MAP and gate not in self.user_gates:
                 gate_class = GATE_CLASS_MAP[gate]
             else:
                 gate_class = Gate
